@@ -209,6 +209,8 @@ pub fn tx_env(t: &r::Tx) -> TxEnv {
         } else {
             None
         },
+        #[cfg(feature = "optimism")]
+        optimism: Default::default(),
     }
 }
 
